@@ -8,7 +8,8 @@ From V.lib Require Import Base.
 From V.c13 Require Import C13Spec C13Model C13ReaderProofs.
 From V.c15 Require Import C15Model C15Spec C15BitProofs C15AvcSpsProofs C15AvcVuiProofs C15AvcPpsProofs C15AvcSliceProofs C15AvcDimsProofs
   C15HevcModel C15HevcSpec C15HevcPpsProofs C15HevcSpsProofs C15HevcSliceProofs
-  C15TieBaseProofs C15TieRelProofs C15TieAvcProofs C15TieHevcProofs C15TieHevcSpsProofs.
+  C15TieBaseProofs C15TieRelProofs C15TieAvcProofs C15TieHevcProofs C15TieHevcSpsProofs
+  C15Hevc2Model C15Hevc2Spec C15Hevc2PpsProofs C15TieHevc2Proofs.
 
 Lemma bytes_of_bits_ok_aux n : forall l, (length l <= n)%nat -> bytes_ok (bytes_of_bits l) = true.
 Proof.
@@ -115,4 +116,17 @@ Proof.
   intros Hs Hp Hv Mp Ms Hz Hn. unfold hnalu_slice.
   rewrite (tie_hevc_slice (hraw_slice sp pp v) spsmap ppsmap (hraw_slice_ok sp pp v Hv) Hz Hn).
   exact (hevc_slice spsmap ppsmap sp pp v Hs Hp Hv Mp Ms).
+Qed.
+
+(* ---------------------------------------------------------------- HEVC PPS with multilayer / 3D extensions *)
+Lemma hevc_pps2_er spsmap x :
+  hpps2_valid x = true -> spsmap (sx_pps_seq_parameter_set_id (sx2_base x)) = true ->
+  zrun_ok (hraw_pps2 x) = true ->
+  hparse_pps2_er spsmap (hnalu_pps2 x) = Ok (expected_hpps2 x).
+Proof.
+  intros Hv Hm Hz. unfold hnalu_pps2, hnalu_of.
+  change (escape (hraw_nalu 34 (sx_pps_nuh_layer_id (sx2_base x)) (sx_pps_nuh_temporal_id_plus1 (sx2_base x)) (ser_hpps2 x)))
+    with (escape (hraw_pps2 x)).
+  rewrite (tie_hevc_pps2 (hraw_pps2 x) spsmap (hraw_nalu_ok _ _ _ _) Hz).
+  exact (hevc_pps2 spsmap x Hv Hm).
 Qed.
